@@ -24,6 +24,24 @@ import (
 	_ "google.golang.org/protobuf/internal/testprotos/testeditions"
 	_ "google.golang.org/protobuf/internal/testprotos/testeditions/testeditions_hybrid"
 	_ "google.golang.org/protobuf/internal/testprotos/testeditions/testeditions_opaque"
+	// generator test schemas: more import shapes for C40 (they register under their own packages)
+	_ "google.golang.org/protobuf/cmd/protoc-gen-go/testdata/annotations"
+	_ "google.golang.org/protobuf/cmd/protoc-gen-go/testdata/comments"
+	_ "google.golang.org/protobuf/cmd/protoc-gen-go/testdata/extensions/base"
+	_ "google.golang.org/protobuf/cmd/protoc-gen-go/testdata/extensions/ext"
+	_ "google.golang.org/protobuf/cmd/protoc-gen-go/testdata/extensions/extra"
+	_ "google.golang.org/protobuf/cmd/protoc-gen-go/testdata/fieldnames"
+	_ "google.golang.org/protobuf/cmd/protoc-gen-go/testdata/import_public"
+	_ "google.golang.org/protobuf/cmd/protoc-gen-go/testdata/import_public/sub"
+	_ "google.golang.org/protobuf/cmd/protoc-gen-go/testdata/import_public/sub2"
+	_ "google.golang.org/protobuf/cmd/protoc-gen-go/testdata/imports"
+	_ "google.golang.org/protobuf/cmd/protoc-gen-go/testdata/imports/fmt"
+	_ "google.golang.org/protobuf/cmd/protoc-gen-go/testdata/imports/test_a_1"
+	_ "google.golang.org/protobuf/cmd/protoc-gen-go/testdata/imports/test_a_2"
+	_ "google.golang.org/protobuf/cmd/protoc-gen-go/testdata/imports/test_b_1"
+	_ "google.golang.org/protobuf/cmd/protoc-gen-go/testdata/proto2"
+	_ "google.golang.org/protobuf/cmd/protoc-gen-go/testdata/proto3"
+	_ "google.golang.org/protobuf/cmd/protoc-gen-go/testdata/protoeditions"
 	_ "google.golang.org/protobuf/types/known/anypb"
 	_ "google.golang.org/protobuf/types/known/durationpb"
 	_ "google.golang.org/protobuf/types/known/structpb"
